@@ -34,6 +34,9 @@ R.contract(f'{TS}.check_cyclic_dependences', self_type='Obj[TaskState]', params=
     raises={}, frame=[],
     note='cycle check: out of scope; under A-acyclic (dependencies are structurally nested, hence no cycle exists) it never raises')
 
+R.globals['INTERRUPTED'] = 'Bool'     # GHOST (C14): a KeyboardInterrupt has been delivered to the calling thread
+R.globals['INTERRUPTS'] = 'Int'
+R.func('INTERRUPT_MODE', [], 'Bool')
 R.macro('REQ', ['tasks'], '{Inst_to_Task(i) for i in tasks}')
 R.classes[TS].ghost_init = {g: "typed_empty('Set[Task]')" for g in ('ALL', 'STARTED', 'FIN', 'SUCC')}
 R.contract(f'{TS}.__init__',
@@ -67,7 +70,7 @@ R.contract(f'{TC}.run',
     self_type='Obj[TaskCoordinator]', params={'tasks': 'List[Inst]'}, returns='Map[Task,Val]',
     display=('pbars', 'pbar', 'task_monitor', 'task_type_counts', 'task_type_max_digits', 'task_type_to_task_count',
              'task_number', 'redirected_loggers'),
-    requires=[],
+    requires=[C("implies(INTERRUPT_MODE(), self.lab.continue_on_failure)", 'C14 precondition: failures are tolerated (a failure during the drain with continue_on_failure=False raises LabError by C10)')],
     ensures=[
         C("forall('Task', lambda t: (t in result) == ((t in REQ(tasks)) and (t in self.RUN_SUCC)))", 'keys = requested tasks that succeeded', serves=('C01', 'C10')),
         C("forall('Task', lambda t: implies(t in result, result[t] == EVAL(t)))", 'values are the reference values', serves=('C01',)),
@@ -82,16 +85,21 @@ R.contract(f'{TC}.run',
     locals={'task_results': 'Map[Task,Val]'},
     cand_locals=('state', 'runner', 'task_results', 'ready_tasks'),
     candidates=COORD_INV + [
+        C("forall('Task', lambda t: implies(t in INFLIGHT(runner), (t in state.STARTED) and (t not in state.FIN)))", 'W2 weak link (holds at every interrupt instant): what is in flight was started and is unfinished', serves=('C14',)),
         C("forall('Task', lambda t: implies((t in ready_tasks) and (t not in __done__), (t in P(state)) and empty(PD(state)[t])))", 'R1 not-yet-started ready tasks stay pending and unblocked'),
         C("forall('Type', lambda y: implies(not isnone(maxpar(y)), card(ACT(state)[y]) + card(OFTYPE(ready_tasks - __done__, y)) <= unopt(maxpar(y))))", 'R2 per-type budget', serves=('C04',)),
         C("forall('Task', lambda t: implies((t in P(state)) and empty(PD(state)[t]) and (t not in ready_tasks), (not isnone(maxpar(ty(t)))) and (card(ACT(state)[ty(t)]) + card(OFTYPE(ready_tasks - __done__, ty(t))) >= unopt(maxpar(ty(t))))))", 'R3 skipped tasks are at their limit', serves=('C05',)),
         C("subset(__done__, ready_tasks)", 'R4'),
         C("forall('Task', lambda t: implies(t in __done__, t not in P(state)))", 'R5 started tasks have left the pending set'),
     ],
+    interrupt_exit=[
+        C("implies(INTERRUPTS == 1, empty(INFLIGHT(runner)))", 'after a single interrupt run only leaves once nothing is in flight any more: tasks that were executing were allowed to finish', serves=('C14',)),
+    ],
     at_call={
         'wait': [C("forall('Task', lambda t: implies((t in P(state)) and empty(PD(state)[t]), (not isnone(maxpar(ty(t)))) and (card(ACT(state)[ty(t)]) >= unopt(maxpar(ty(t))))))",
                    'REST: when the coordinator waits, every unblocked pending task is held back only by its type limit', serves=('C05', 'C11'))],
-        'submit_task': [C("arg_use_cache or subset(deps(arg_task), state.FIN)", 'START: a task is handed to the runner only after all its dependencies finished', serves=('C02',))],
+        'submit_task': [C("not INTERRUPTED", 'no task is started after an interrupt', serves=('C14',)),
+                        C("arg_use_cache or subset(deps(arg_task), state.FIN)", 'START: a task is handed to the runner only after all its dependencies finished', serves=('C02',))],
     },
     )
 
